@@ -36,7 +36,10 @@ enum Side {
     Lib { h: Handshake, done: bool, remaining: Vec<u8>, received_at_completion: usize },
     /// digest-less peer following the original RTMP specification
     Original { role: Role, p1: Vec<u8>, inbuf: Vec<u8>, sent_p2: bool, done: bool, started: bool, /// Some(t): packet 2 carries the time the peer's packet 1 was read in bytes 4..8 (section 5.2.4) instead of being a byte-exact echo
-        time2: Option<u32> },
+        time2: Option<u32>,
+        /// the peer sends the packet 1 it RECEIVED as its own packet 1 (any content is allowed there;
+        /// simple servers do this): it can only start once it has the library's packet 1
+        mirror: bool },
 }
 
 struct End {
@@ -92,9 +95,12 @@ impl End {
                     Err(e) => return Err(format!("{} process_bytes returned an error: {:?}", who, e)),
                 }
             }
-            Side::Original { role: _, p1, inbuf, sent_p2, done, started, time2 } => {
+            Side::Original { role: _, p1, inbuf, sent_p2, done, started, time2, mirror } => {
                 inbuf.extend_from_slice(bytes);
-                if !*started {
+                if !*started && (!*mirror || inbuf.len() >= 1 + PACKET) {
+                    if *mirror {
+                        *p1 = inbuf[1..1 + PACKET].to_vec();
+                    }
                     *started = true;
                     out.push(3);
                     out.extend_from_slice(p1);
@@ -150,7 +156,7 @@ pub fn eval(c: &Case) -> Verdict {
             } else if p1[4..8] == [0, 0, 0, 0] {
                 p1[5] = 1;
             }
-            Side::Original { role, p1, inbuf: Vec::new(), sent_p2: false, done: false, started: false, time2: if (fill >> 10) & 1 == 1 { Some((fill >> 11) as u32) } else { None } }
+            Side::Original { role, p1, inbuf: Vec::new(), sent_p2: false, done: false, started: false, time2: if (fill >> 10) & 1 == 1 { Some((fill >> 11) as u32) } else { None }, mirror: (fill >> 13) & 3 == 3 && !(if role == Role::Client { c.client_generates || !c.server_generates } else { c.server_generates }) }
         } else {
             Side::Lib { h: Handshake::new(peer_type(role)), done: false, remaining: Vec::new(), received_at_completion: 0 }
         };
@@ -170,7 +176,20 @@ pub fn eval(c: &Case) -> Verdict {
         match &mut e.side {
             Side::Lib { h, .. } => {
                 if generate || must {
-                    let b = h.generate_outbound_p0_and_p1().map_err(|x| format!("generate_outbound_p0_and_p1 failed: {:?}", x))?;
+                    // both documented ways to start: the explicit call, or process_bytes with nothing
+                    // received yet ("the first call includes packets 0 and 1")
+                    let b = if (fill >> 12) & 1 == 1 {
+                        match h.process_bytes(&[]) {
+                            Ok(HandshakeProcessResult::InProgress { response_bytes }) => response_bytes,
+                            Ok(HandshakeProcessResult::Completed { .. }) => return Err("process_bytes(&[]) on a fresh handshake reported completion".to_string()),
+                            Err(x) => return Err(format!("process_bytes(&[]) on a fresh handshake failed: {:?}", x)),
+                        }
+                    } else {
+                        h.generate_outbound_p0_and_p1().map_err(|x| format!("generate_outbound_p0_and_p1 failed: {:?}", x))?
+                    };
+                    if b.len() != 1 + PACKET {
+                        return Err(format!("the side that starts emitted {} bytes instead of packet 0 and packet 1 (1537 bytes)", b.len()));
+                    }
                     e.emit(b);
                 }
             }
